@@ -35,7 +35,8 @@ Definition text := Z.
 Record oracle := mkOracle {
   o_upper : text -> text;            (* str.upper() *)
   o_is_epsg : text -> bool;          (* s.startswith("EPSG:") *)
-  o_code : text -> Z;                (* int(s.split(":", 1)[1]) *)
+  o_code : text -> Z;                (* int(s[5:]) when s[5:].isdigit(), else 0: a compound "EPSG:h+v" string is not a
+                                        single code and the code leaves [_epsg] as it was (0 is EPSG_UNSET anyway) *)
   o_epsg_text : Z -> text;           (* f"EPSG:{n}" *)
   o_prep : text -> option text;      (* pyproj.CRS.from_user_input(s).srs; None = CRSError *)
   o_wkt : text -> text;              (* obj.to_wkt() (default version): what hash(obj) hashes *)
@@ -135,10 +136,12 @@ Section Model.
     | (k', e) :: r => if key_eqb k' k then Some e else cache_get r k
     end.
 
-  (** crs.py:72-78: [crs_str = str(crs)] is the srs; EPSG-like strings are upper-cased and give the code *)
+  (** crs.py:72-80: [crs_str = str(crs)] is the srs; EPSG-like strings are upper-cased, and give the code when
+      what follows "EPSG:" is all digits *)
   Definition norm_entry (id : Z) (srs : text) (epsg0 : Z) : entry :=
     let u := o_upper W srs in
-    if o_is_epsg W u then mkEntry id srs u (o_code W u) else mkEntry id srs srs epsg0.
+    if o_is_epsg W u then mkEntry id srs u (if o_code W u =? 0 then epsg0 else o_code W u)
+    else mkEntry id srs srs epsg0.
 
   Definition heap_has (h : list (Z * text)) (id : Z) : bool := existsb (fun p => fst p =? id) h.
 
@@ -317,11 +320,11 @@ Record contracts (W : oracle) : Prop := mkContracts {
   (* from_user_input(obj.srs).srs == obj.srs *)
   k_prep_idem : forall t r, o_prep W t = Some r -> o_prep W r = Some r;
   (* to_epsg of "EPSG:n" is n *)
-  k_toepsg_code : forall s, o_is_epsg W (o_upper W s) = true -> o_prep W s = Some s ->
+  k_toepsg_code : forall s, o_is_epsg W (o_upper W s) = true -> o_code W (o_upper W s) <> 0 -> o_prep W s = Some s ->
                             o_to_epsg W s = Some (o_code W (o_upper W s));
-  (* an accepted authority string is spelled f"EPSG:{code}" up to letter case, code non-zero *)
-  k_code_text : forall s, o_is_epsg W (o_upper W s) = true -> o_prep W s = Some s ->
-                          o_upper W s = o_epsg_text W (o_code W (o_upper W s)) /\ o_code W (o_upper W s) <> 0;
+  (* an accepted single-code authority string is spelled f"EPSG:{code}" up to letter case *)
+  k_code_text : forall s, o_is_epsg W (o_upper W s) = true -> o_code W (o_upper W s) <> 0 -> o_prep W s = Some s ->
+                          o_upper W s = o_epsg_text W (o_code W (o_upper W s));
   (* pyproj-equal objects are not identified with two different EPSG codes *)
   k_toepsg_peq : forall a b n m, o_peq W a b = true -> o_to_epsg W a = Some n -> o_to_epsg W b = Some m ->
                                  n <> 0 -> m <> 0 -> n = m
